@@ -30,6 +30,7 @@ type c09PipeCase struct {
 	Dups     int  `json:"dups"`     // how many of the first messages are duplicates of message 0
 	Shutdown int  `json:"shutdown"` // 0 = idle input channel at cancel, 1 = a producer keeps sending, 2 = input channel closed instead of cancel
 	Release  bool `json:"release"`  // release the parked probes before (true) or after (false) the stop request
+	Share    int  `json:"share"`    // registrations come from the local detector and are shared with a peer station: 0 = off, 1 = the peer accepts the connection and never answers, 2 = the peer refuses the connection
 }
 
 type c09GateTester struct {
@@ -68,8 +69,10 @@ func (g *c09GateTester) PrintAndReset(*log.Logger) {}
 func (g *c09GateTester) PrintStats(*log.Logger)    {}
 func (g *c09GateTester) Reset()                    {}
 
-func c09Msg(i int) []byte {
-	w := vWrapper(vSecret(100+i), pb.TransportType_Min, 0, "198.51.100.10:443", true, false, 4, 957, pb.RegistrationSource_API, net.ParseIP("198.51.100.7").To4())
+func c09Msg(i int) []byte { return c09MsgFrom(i, pb.RegistrationSource_API) }
+
+func c09MsgFrom(i int, src pb.RegistrationSource) []byte {
+	w := vWrapper(vSecret(100+i), pb.TransportType_Min, 0, "198.51.100.10:443", true, false, 4, 957, src, net.ParseIP("198.51.100.7").To4())
 	b, err := proto.Marshal(w)
 	if err != nil {
 		panic(err)
@@ -89,6 +92,43 @@ func c09PipeRun(e *vEnv, c c09PipeCase) (key, msg string, classes []string) {
 	gate := &c09GateTester{gate: make(chan struct{})}
 	rm.LivenessTester = gate
 	defer gate.Open()
+	c09Msg := c09Msg
+	if c.Share != 0 {
+		// a peer station that never answers (or refuses) must not hold up ingest or shutdown
+		ln, err := net.Listen("tcp", "127.0.0.1:0")
+		if err != nil {
+			return "harness", err.Error(), classes
+		}
+		var held []net.Conn
+		var hmu sync.Mutex
+		if c.Share == 2 {
+			ln.Close()
+		} else {
+			go func() {
+				for {
+					cn, err := ln.Accept()
+					if err != nil {
+						return
+					}
+					hmu.Lock()
+					held = append(held, cn)
+					hmu.Unlock()
+				}
+			}()
+		}
+		defer func() {
+			ln.Close()
+			hmu.Lock()
+			for _, cn := range held {
+				cn.Close()
+			}
+			hmu.Unlock()
+		}()
+		rm.EnableShareOverAPI = true
+		rm.PreshareEndpoint = "http://" + ln.Addr().String() + "/register"
+		c09Msg = func(i int) []byte { return c09MsgFrom(i, pb.RegistrationSource_Detector) }
+		classes = append(classes, fmt.Sprintf("share-peer:%d", c.Share))
+	}
 	in := make(chan interface{})
 	ctx, cancel := context.WithCancel(context.Background())
 	defer cancel()
@@ -236,9 +276,9 @@ func c09PipeCheck(t vh.Fataler, rec *vh.Rec, e *vEnv, c c09PipeCase) {
 }
 
 func TestVerif_C09_pipeline(t *testing.T) {
-	rec := vh.NewRec("C09", "pipeline", "the real HandleRegUpdates with W in {10,20,37} workers whose probes are parked, fed through an unbuffered channel: all workers occupied one by one, shallow buffer filled, then 0-12 excess messages (each send must complete within 10 s; dropped counter must equal the excess exactly), then a stop request with an idle input channel / a producer that keeps sending / a closed input channel, probes released before or after; grid + rapid-drawn cases; non-trivial = overload with excess > 0 or shutdown with an idle input channel; distinct by case")
+	rec := vh.NewRec("C09", "pipeline", "the real HandleRegUpdates with W in {10,20,37} workers whose probes are parked, fed through an unbuffered channel: all workers occupied one by one, shallow buffer filled, then 0-12 excess messages (each send must complete within 10 s; dropped counter must equal the excess exactly), then a stop request with an idle input channel / a producer that keeps sending / a closed input channel, probes released before or after; in a third of the cases the registrations come from the local detector and are shared with a peer station that accepts the connection and never answers, or refuses it; grid + rapid-drawn cases; non-trivial = overload with excess > 0 or shutdown with an idle input channel; distinct by case")
 	defer rec.Flush()
-	rec.Require("overload", "shutdown-idle-input", "shutdown-busy-input")
+	rec.Require("overload", "shutdown-idle-input", "shutdown-busy-input", "share-peer:1")
 	e := vNewEnv(t, nil, "")
 	if p := vh.ReplayFile(); p != "" {
 		var c c09PipeCase
@@ -255,7 +295,7 @@ func TestVerif_C09_pipeline(t *testing.T) {
 				for _, rel := range []bool{true, false} {
 					i++
 					if vh.Mine(i) {
-						c09PipeCheck(t, rec, e, c09PipeCase{Workers: w, Excess: ex, Shutdown: sh, Release: rel, Dups: i % 3})
+						c09PipeCheck(t, rec, e, c09PipeCase{Workers: w, Excess: ex, Shutdown: sh, Release: rel, Dups: i % 3, Share: []int{0, 1, 0, 2, 1}[i%5]})
 					}
 				}
 			}
@@ -275,6 +315,7 @@ func TestVerif_C09_pipeline(t *testing.T) {
 			Dups:     rapid.IntRange(0, 4).Draw(rt, "dups"),
 			Shutdown: rapid.IntRange(0, 2).Draw(rt, "shutdown"),
 			Release:  rapid.Bool().Draw(rt, "release"),
+			Share:    rapid.SampledFrom([]int{0, 0, 1, 2}).Draw(rt, "share"),
 		}
 		c09PipeCheck(rt, rec, e, c)
 	})
